@@ -180,7 +180,7 @@ PessimisticLock::SIXGuard::UpgradeToX()  //
       },
       &(dest->lock_));
 
-  return XGuard{dest_};
+  return XGuard{dest};
 }
 
 /*##############################################################################
